@@ -93,6 +93,13 @@ PROPS = {
                  '(all / each id / out of range) x window (default, narrow, past, beyond retention, degenerate, future) x fault (text-out that cannot be opened, '
                  '/dev/full with a short and with a long report, missing source, unreadable source, mismatching destination layout); the status (ok / diff / '
                  'notexist / err, never panic) and the effect on the destination are compared', 'all of cmd/*.go through the command structs', shrink=False),
+    'C15': entry(gens_codec.gen_c15, 160, 3000, 'random bytes, bit flips and truncations of valid encodings, extreme count/step/size fields (0, 2^31-1, 2^31, 2^32-1 and '
+                 'values whose product with the record size wraps 32 or 64 bits) through every decoder; files truncated at every structural boundary, files with '
+                 'garbage slots (unaligned and random times), headers whose last archive ends beyond 2^32, random and bit-flipped files through Open + fetch / raw dump / '
+                 'updates; every operation in a child process with a 3 GiB address-space limit and a timeout; allocation measured with runtime.MemStats',
+                 'Header/TimeSeries/Points/ArchiveInfo TakeFrom, Open (readHeader, length check), FetchFromArchive, GetAllRawUnsortedPoints, Update* on decoded garbage', shrink=False, timeout=3000),
+    'C06': entry(gens_codec.gen_c06, 200, 3000, 'files written by whispertool or by the real go-whisper (Update, UpdateMany), then read from the same bytes by whispertool, '
+                 'by the real go-whisper and by the model (image parser + both reader models), band by band', 'byte layout (header.go, archive_info.go AppendTo), Open, the go-whisper reader (Model/GoWhisperRef.v)', shrink=False),
 }
 
 
